@@ -1,6 +1,8 @@
 """C03 — any prefix of any title word finds the record (necessary constants and shapes)."""
 from . import r_gates as RG
 from . import r_trigram as RT
+from . import C20 as RC20
+from . import r_token as RK
 from .common import info
 
 
@@ -13,8 +15,11 @@ def run(ctx):
         RG.shape_length(ctx, "R03.b", gates)
     RT.gram_iter_width(ctx, "R03.c")
     RT.shared_generator(ctx, "R03.d")
+    RT.grams_from_whole_words(ctx, "R03.d")
     RT.candidate_cap(ctx, "R03.e", minimum=1)
     RT.unfinished_prefix_clip(ctx, "R03.f")
+    RK.class_predicates(ctx, "R03.g")
+    RC20.buffer_rules(ctx, None, None, "R20.f")
     return info("Necessary constants/shapes for prefix search: the Jaccard gate accepts distance 1/2 (first keystroke), "
                 "the length and DL gates accept distance 0, the gram iterator starts at width 1 and index writer and "
                 "reader share one gram generator, the candidate cap is at least the limit, and for an unfinished query "
